@@ -1,4 +1,4 @@
-(* stdin: "<id> <value0> <coroutines> <threads> [asis|fixed|gen]"   (same syntax as harness/conc/c13_coroutine.cpp, futex ops only)
+(* stdin: "<id> <value0> <coroutines> <threads> [asis|fixed|gen [<max states>]]"   (same syntax as harness/conc/c13_coroutine.cpp, futex ops only)
      coroutines: ';'-separated "<executor>:w<x>[t],..."  ('-' = none);  threads: '|'-separated W1 WA K<i>.<j> V<x> Q<n> Y
    Explores every interleaving of the extracted model (code paths taken from the regenerated Gen file) and prints the
    set of outcomes: client results / coroutine progress at the terminal states (clients done, nothing runnable). *)
@@ -28,6 +28,9 @@ let show_res (r : res) : string =
 
 let () = iter_lines (fun line ->
   let ws = words line in
+  let (ws, cap) = match ws with
+    | [a; b; c; d; e; n] -> ([a; b; c; d; e], int_of_string n)
+    | _ -> (ws, 3000000) in
   let (ws, cfg) = match ws with
     | [a; b; c; d; "asis"] -> ([a; b; c; d], cfg_asis)
     | [a; b; c; d; "fixed"] -> ([a; b; c; d], cfg_fixed)
@@ -45,7 +48,7 @@ let () = iter_lines (fun line ->
     let s0 = init (z_of_int (int_of_string v0)) cps kps in
     let nt = List.length cps + List.length kps in
     let tids = List.init nt nat_of_int in
-    let (terms, nstates, ntrans, trunc) = explore (step cfg) tids (fun _ -> true) s0 3000000 in
+    let (terms, nstates, ntrans, trunc) = explore (step cfg) tids (fun _ -> true) s0 cap in
     let outs = Hashtbl.create 64 in
     let stuck = ref 0 and badn = ref 0 in
     List.iter (fun s ->
